@@ -1705,6 +1705,12 @@ def pcap_run_events(run_lines, proto, pcap_path, tick_ns=10):
                 src, dst = (cep, tgt) if o["dir"] == "c2a" else (tgt, cep)
                 evs.append({"e": "W", "proto": "tcp", "k": "%d/%s" % (o["conn"], o["dir"]), "src": src, "dst": dst,
                             "len": o["len"], "dig": o["dig"], "tus": [o["t"] // 1000000, o["t"] % 1000000]})
+            elif l.startswith('{"e":"WireU"'):
+                # UDP datagrams sent alongside the connections (one capture with both protocols)
+                o = json.loads(l)
+                if "dst" in o:
+                    evs.append({"e": "W", "proto": "udp", "k": "u", "src": o["from"], "dst": o["dst"], "len": o["len"],
+                                "dig": o["dig"], "tus": [o["t"] // 1000000, o["t"] % 1000000]})
         else:
             if l.startswith('{"e":"WireU"'):
                 o = json.loads(l)
@@ -1729,7 +1735,8 @@ def pcap_run_events(run_lines, proto, pcap_path, tick_ns=10):
 def c19(ctx):
     import random
     q = ctx.tier == "quick"
-    ctx.rule = ("TCP programs (several connections, both directions, lossy routes causing retransmission, closes) and UDP "
+    ctx.rule = ("TCP programs (several connections, both directions, lossy routes causing retransmission, closes; every third one "
+                "with UDP datagrams among the same nodes in the same capture) and UDP "
                 "programs (datagrams that fit one IPv4 packet) among IPv4 nodes with capture enabled; after the simulation is "
                 "destroyed an independent struct-level parser re-reads the file (magic/version/linktype 101, per-record "
                 "lengths, IP/UDP/TCP headers) and TLC validates, against Pcap.tla, that record k equals the k-th first-hop "
@@ -1746,6 +1753,11 @@ def c19(ctx):
     with open(ft, "w") as f:
         for i in range(150 if q else 3000):
             p = rand_tcp_program(rng, plain=True)
+            if i % 3 == 0 and not p["topo"].get("default"):
+                # UDP datagrams among the same nodes while the connections run: one capture with both protocols
+                p["udp"] = [{"t": rng.choice([3, 1000, 30000, 200000, 450000, 900000]) + k, "from": fr, "fport": 6001, "to": to, "tport": 6002,
+                             "size": rng.choice([2, 17, 300, 1400, 9000])}
+                            for k, (fr, to) in enumerate(rng.choice([("A1", "B1"), ("B1", "A1"), ("A2", "B1")]) for _ in range(rng.randint(1, 6)))]
             p["pcap"] = os.path.join(pdir, "t%d.pcap" % i)
             f.write(json.dumps(p) + "\n")
     jobs.append(("tcp", ft))
